@@ -3,13 +3,13 @@
 // Generic reflection walks used by the C18 oracles. None of them ever puts an address into a log,
 // a signature or a detail string: they report Go type names and field paths only.
 //
-//   canon(x)          canonical content of everything reachable from x (nil slice == empty slice,
-//                     time.Time by instant); top-level pointers/interfaces are dereferenced
-//   diff(a, b)        field path and values of the first leaf in which two values differ
-//   sharesMemory(a,b) true if some mutable memory (pointer target, slice backing array incl. spare
-//                     capacity, map) reachable from a overlaps some reachable from b
-//   scramble(x)       overwrites, IN PLACE, every number / byte / bool / string reachable from x
-//                     through pointers, slice elements, map entries and addressable struct fields
+//	canon(x)          canonical content of everything reachable from x (nil slice == empty slice,
+//	                  time.Time by instant); top-level pointers/interfaces are dereferenced
+//	diff(a, b)        field path and values of the first leaf in which two values differ
+//	sharesMemory(a,b) true if some mutable memory (pointer target, slice backing array incl. spare
+//	                  capacity, map) reachable from a overlaps some reachable from b
+//	scramble(x)       overwrites, IN PLACE, every number / byte / bool / string reachable from x
+//	                  through pointers, slice elements, map entries and addressable struct fields
 package c18
 
 import (
@@ -34,12 +34,48 @@ func top(x any) reflect.Value {
 	return v
 }
 
-// typeName is the Go type of x as the receiver sees it (e.g. "*phase0.AttestationData").
+// typeName is the Go type of x as the receiver sees it (e.g. "*phase0.AttestationData"); for the
+// set types, whose elements are interfaces, the dynamic type of the (first) element is appended:
+// "core.SignedDataSet<core.VersionedAttestation>".
 func typeName(x any) string {
 	if x == nil {
 		return "nil"
 	}
-	return reflect.TypeOf(x).String()
+	t := reflect.TypeOf(x)
+	if t.Kind() == reflect.Map || t.Kind() == reflect.Slice {
+		if e := elemType(reflect.ValueOf(x), 0); e != "" {
+			return t.String() + "<" + e + ">"
+		}
+	}
+	return t.String()
+}
+
+// elemType finds the dynamic type of the first interface-typed element of a container.
+func elemType(v reflect.Value, depth int) string {
+	if depth > 4 {
+		return ""
+	}
+	switch v.Kind() {
+	case reflect.Map:
+		if es := sortedEntries(v); len(es) > 0 {
+			return elemType(es[0].val, depth+1)
+		}
+	case reflect.Slice:
+		if v.Len() > 0 && v.Type().Elem().Kind() != reflect.Uint8 {
+			return elemType(v.Index(0), depth+1)
+		}
+	case reflect.Interface:
+		if !v.IsNil() {
+			return v.Elem().Type().String()
+		}
+	case reflect.Struct:
+		for i := 0; i < v.NumField(); i++ {
+			if v.Field(i).Kind() == reflect.Interface {
+				return elemType(v.Field(i), depth+1)
+			}
+		}
+	}
+	return ""
 }
 
 // writable returns a settable alias of v if v is addressable (also for unexported fields).
@@ -144,7 +180,7 @@ func (w *canonW) walk(v reflect.Value) {
 }
 
 type mapEntry struct {
-	key  []byte
+	key    []byte
 	k, val reflect.Value
 }
 
